@@ -200,6 +200,55 @@ def search_counterexample(ctx, ir, e, tries=300):
     return None
 
 
+def neighbourhood_search(ctx, obj, budget=80):
+    """The annotation at obj["where"] differs from the verified analysis but no environment violates it (the wrong
+    result may be sound by luck on this instance).  Look for a failing input NEAR it: mutants of the same field's
+    expression (true<->false, &&<->||, ==<->!=, swapped ?: branches, constants moved to type boundaries) are compiled
+    by the real front end and evaluated on random/edge environments.  Returns (text, where, env, message) or None."""
+    import re
+    text, where = obj["text"], obj["where"]
+    name = where.split("/")[-1]
+    lines = text.split("\n")
+    idx = [i for i, l in enumerate(lines) if re.match(r"\s*let %s = " % re.escape(name), l)]
+    if not idx:
+        return None
+    li = idx[0]
+    line = lines[li]
+    muts = []
+    for a, b in (("true", "false"), ("false", "true"), ("&&", "||"), ("||", "&&"), ("==", "!="), ("!=", "=="),
+                 (" ? 1 : ", " ? 1000000 : "), (" : 1)", " : 1000000)")):
+        pos = [m.start() for m in re.finditer(re.escape(a), line)]
+        for p0 in pos:
+            muts.append(line[:p0] + b + line[p0 + len(a):])
+        if len(pos) > 1:
+            muts.append(line.replace(a, b))
+    def swap_all(l, a, b):
+        return l.replace(a, "\0").replace(b, a).replace("\0", b)
+    both = swap_all(swap_all(line, "true", "false"), "&&", "||")
+    muts = [both, swap_all(line, "true", "false"), swap_all(line, "&&", "||")] + muts
+    m = re.search(r"\? (.+) : (.+)\)$", line)
+    if m:
+        muts.append(line[:m.start()] + "? %s : %s)" % (m.group(2), m.group(1)))
+    seen = set()
+    for mu in muts[:budget]:
+        if mu in seen or mu == line:
+            continue
+        seen.add(mu)
+        t2 = "\n".join(lines[:li] + [mu] + lines[li + 1:])
+        try:
+            ir2, errs2 = compile_for_bounds(t2)
+        except Exception:
+            continue
+        if errs2:
+            continue
+        for (e2, where2, attr2) in irx.top_level_expressions(ir2):
+            if where2 == where:
+                cex = search_counterexample(ctx, ir2, e2, tries=40)
+                if cex:
+                    return (t2, where2, cex[0], cex[1])
+    return None
+
+
 def spec_fits_one_type(e):
     """The property's own clause, evaluated on the implementation's annotations: does every run-time
     operation node of e fit ONE of int64_t / uint64_t together with all of its integer operands?"""
@@ -414,6 +463,11 @@ def run(ctx):
             ctx.violation("bounds-unsound", "inferred bounds wrong at %s %s: %s" % (obj["label"], obj["where"], cex[1]),
                           dict(kind="expression", module=obj["text"], where=obj["where"], environment=cex[0],
                                message=cex[1], term=obj["term"], python=b), found_input=True)
+        elif (near := neighbourhood_search(ctx, obj)) is not None:
+            ctx.violation("bounds-unsound", "model and expression_bounds.py disagree at %s %s; a neighbouring expression has unsound bounds: %s"
+                          % (obj["label"], obj["where"], near[3]),
+                          dict(kind="expression", module=near[0], where=near[1], environment=near[2], message=near[3],
+                               found_near=dict(module=obj["text"], where=obj["where"], term=obj["term"], python=b)), found_input=True)
         else:
             ctx.violation("bounds-correspondence", "model and expression_bounds.py disagree at %s %s" % (obj["label"], obj["where"]),
                           dict(kind="expression", correspondence="Bounds.Model.analyze vs expression_bounds.compute_constants",
